@@ -235,7 +235,7 @@ LEVEL_TEXT = ("Coq theorems (all diagrams, assignments and leaf operations, no b
               "tree, are run on generated operation trees; every handle is compared with the extracted model on all 3^NV assignments, == on all "
               "pairs, the traversing functors; GetPaths and the low choice for don't-care are reported as drift.")
 LEVEL_NOTE = ("Trusted: Coq kernel, ExtrOcamlBasic extraction, OCaml/C++ glue, the two copies of the leaf-operation tables, generators. The C++ is modelled, "
-              "not verified; the memo tables of the apply functors are not modelled. Everything stated in DESIGN.md 5/C17 is proved in full (no _partial "
+              "not verified; of the memo tables of the apply functors that of Apply2 is modelled (C17_apply2_memo_correct), those of Apply1 / Apply3 are not. Everything stated in DESIGN.md 5/C17 is proved in full (no _partial "
               "theorem); Project is proved structurally for every leaf operation and, as a function (combination of the two cofactors), for one removed "
               "variable and an idempotent operation (a reduced diagram skips variables, so without idempotence Project is not a function of the denoted "
               "function). The operator== theorem is under the store invariant, which is proved preserved for the operations of C18; for Project/Rename the "
